@@ -45,8 +45,16 @@ package textwire
 //@   modifies nothing
 //@ func getFullPath
 //@   modifies nothing
+// C18: the template name is the path without the directory prefix and the extension suffix
 //@ func nameFromPath
+//@   goal name: result == lib("strings.TrimSuffix", lib("strings.TrimPrefix", path, userConfig.TemplateDir + "/"), userConfig.TemplateExt)
 //@   modifies nothing
+
+// the directory walk registers exactly the files whose names end in the extension
+//@ func findTextwireFiles$1
+//@   requires (err == nil ==> info != nil) && free_result != nil && *free_result != nil
+//@   call nameFromPath#0: assert registers-only-template-files: lib("strings.HasSuffix", path, userConfig.TemplateExt) && arg0 == path
+//@   modifies contents(*free_result)
 
 // C17: the built-in page is the embedded template rendered with exactly these four values
 //@ func errorPage
